@@ -28,32 +28,11 @@ HEADER = cq.HEADER + 'From Omega Require Import L5Cover.MinCover.\n'
 CORES3 = [126, 189, 219, 231]   # the 3-variable functions with a cyclic core
 
 
-def ensure_bb_skeleton(ctx):
-    """Tie T for the branch-and-bound skeleton: translate cover._traverse,
-    _branch and minimize from the working tree (fail-closed) and re-prove
-    that the translation equals the hand model."""
-    try:
-        text = cover_bbgen.cover_text(core.REPO)
-    except cover_bbgen.Refuse as e:
-        raise Broken('translator', f'omega/symbolic/cover.py: {e}')
-    except SyntaxError as e:
-        raise Broken('translator', f'omega/symbolic/cover.py: {e}')
-    ctx.write_gen('gen/CoverBBGen.v', text)
-    ctx.prove('GenProofs/CoverBBBridge.v', timeout=600)
-
-
 def prove(ctx):
     with ctx.coq_lock():
-        ensure_bb_skeleton(ctx)
+        cover_bbgen.ensure(ctx)
         ctx.prove('Properties/C09.v', timeout=1200)
-    ctx.trusted.append(
-        'tie T (skeleton): cover._traverse, cover._branch and cover.minimize '
-        'are translated on every run by tools/vlib/cover_bbgen.py into '
-        'gen/CoverBBGen.v over the primitives of the hand model '
-        '(cyclic_core, indep_size, some_cover, unfloors, pick, set '
-        'operations: fixed table of recognised expressions, anything else '
-        'refuses) and GenProofs/CoverBBBridge.v proves them EQUAL to '
-        'MinCover.traverse / minimize')
+    ctx.trusted.append(cover_bbgen.TRUSTED)
     ctx.trusted.append(
         'tie H: omega/symbolic/cover.py (minimize, cyclic_core) is modelled '
         'by hand in L5Cover/MinCover.v; on every run the real cover is '
